@@ -152,6 +152,12 @@ def translation_checks(ctx, rnd):
         av = rnd.randint(0, 5)
         a = geom.build(s, geom.Frame(U, 1.0, 0.0, 0.0, av))
         b = geom.build(s, geom.Frame(U, 1.0, float(tx), float(ty), av))
+        if i % 2:
+            # translated in place: the same object, already used at the old position, is assigned the new parameters
+            moved = geom.build(s, geom.Frame(U, 1.0, 0.0, 0.0, av))
+            _ = (moved.bounding_box, moved.to_mask(mode='center'))
+            geom._assign_from(moved, b)
+            b = moved
         ba, bb = a.bounding_box, b.bounding_box
         ctx.case(('translate', geom.shape_key(s), U, tx, ty), True)
         boxes_ok = [bb.ixmin, bb.ixmax, bb.iymin, bb.iymax] == [ba.ixmin + tx, ba.ixmax + tx, ba.iymin + ty, ba.iymax + ty]
